@@ -47,13 +47,18 @@ def untag(t):
     if k == "expr":  # python expression building a real object (e.g. Labware(...)); evaluated with robotools in scope
         import robotools
 
-        ns = {"robotools": robotools, "np": np, "numpy": np}
+        ns = {"robotools": robotools, "np": np, "numpy": np, "_mk_wl": _mk_wl}
         ns.update({n: getattr(robotools, n) for n in robotools.__all__})
         ns.update({a: untag(b) for a, b in t.get("env", {}).items()})
         return eval(t["v"], ns)
     if k == "opaque":
         return object()
     raise ValueError(f"unknown tag {k}")
+
+
+def _mk_wl(wl, records):
+    wl.extend(records)
+    return wl
 
 
 def main():
